@@ -84,9 +84,9 @@ class argument_interpreter:
             raise freephil.Sorry(
                 (
                     "Error interpreting %sargument as parameter definition:\n"
-                    f'  "%s"\n  {e.__class__.__name__}: {e!s}'
+                    '  "%s"\n  %s: %s'
                 )
-                % (self.argument_description, arg)
+                % (self.argument_description, arg, e.__class__.__name__, e)
             )
         if self.target_paths is None:
             self.target_paths = [
